@@ -198,6 +198,7 @@ class Server:
                 self.log.error('starting interface %s failed with %r', iface, err)
             if not self.interfaces:
                 self.log.error('no interface started')
+                self.secnode.shutdown_modules()
                 return
             self.secnode.add_secnode_property('_interfaces', list(self.interfaces))
             self.log.info('startup done with interface(s) %s',
